@@ -128,7 +128,7 @@ theorem geoRun_match (c : GeoCfg) (iterations : Nat) (draws : List (Nat × Nat))
     refine ⟨id, id, bijOn_id _, rfl, fun p e he => ⟨e, he, ?_⟩⟩
     simp only [Int.sub_self, Int.zero_mul, closeBy]; omega
   | cons d ds ih =>
-    simp only [geoRun] at h
+    simp only [geoRun, geoWhile_iff] at h
     split at h
     · cases hs : geoStep c st d with
       | none => simp [hs] at h
@@ -180,7 +180,7 @@ theorem geoRun_pairs (c : GeoCfg) (hm : c.mode = .III) (iterations : Nat)
   induction draws generalizing st e with
   | nil => simp only [geoRun, Option.some.injEq] at h; subst h; exact ⟨e, he, rfl⟩
   | cons d ds ih =>
-    simp only [geoRun] at h
+    simp only [geoRun, geoWhile_iff] at h
     split at h
     · cases hs : geoStep c st d with
       | none => simp [hs] at h
